@@ -65,7 +65,7 @@ INT_VALUES = [0, 1, 2, 3, 7, 8, 10, 31, 32, 63, 64, 100, 255, 256, 1000, 65535, 
               2 ** 63, 2 ** 63 + 1, 2 ** 64 - 1, 2 ** 64, 2 ** 64 + 5, 2 ** 63 + 2 ** 40]
 FLT_VALUES = [0.0, 0.5, 1.0, 1.5, 2.0, 2.25, 3.75, 10.0, 0.1, 0.125, 100.0, 1e3, 1e-3, 1e10, 123456.789, 2.5e-7, 1e100, 4294967296.0]
 STR_VALUES = ["", "a", "b", "ab", "A", "z", "é", "日本", "\U0001F600", "�", "\U00010000", "a\U00010000", " ", "x y", "<&>", "\"q\"",
-              "tab\there", "nl\nhere", "\\", "%1", "\x41", "\x7f", " "]
+              "tab\there", "nl\nhere", "\\", "%1", "\x41", "\x7f", " ", "first\rsecond", "a\r\nb", "\r", "x\r"]
 MODES = ["ModeA", "ModeB", "ModeC", "ModeD"]
 OPTS = ["OptNone", "OptX", "OptY", "OptZ"]
 
@@ -75,6 +75,9 @@ def gen(rng, t, depth):
         return leaf(rng, t)
     if t == "int":
         r = rng.random()
+        if r < 0.06:
+            # `x as int` of a constant: if embedded at all, the value is the converted one
+            return ("cast", "int", gen(rng, rng.choice(("double", "double", "bool")), depth - 1))
         if r < 0.15:
             return ("neg", "int", gen(rng, "int", depth - 1))
         if r < 0.22:
@@ -89,6 +92,8 @@ def gen(rng, t, depth):
         return (op, "int", gen(rng, "int", depth - 1), b)
     if t == "double":
         r = rng.random()
+        if r < 0.06:
+            return ("cast", "double", gen(rng, "int", depth - 1))
         if r < 0.15:
             return ("neg", "double", gen(rng, "double", depth - 1))
         return (rng.choice(("+", "-", "*", "/", "%")), "double", gen(rng, "double", depth - 1), gen(rng, "double", depth - 1))
@@ -136,6 +141,16 @@ def ev(e):
         return chk(~ev(e[2]))
     if k == "not":
         return not ev(e[2])
+    if k == "cast":
+        x = ev(e[2])
+        ft = e[2][1]
+        if t == "double":
+            return float(x)
+        if ft == "bool":
+            return 1 if x else 0
+        if math.isnan(x) or math.isinf(x) or not (-2 ** 31 - 1 < x < 2 ** 31):
+            raise Undef("conversion out of the range of int (not judged)")
+        return int(x)     # static_cast<int>: towards zero
     a, b = ev(e[2]), ev(e[3])
     at = e[2][1]
     if t == "bool" and k in ("==", "!=", "<", "<=", ">", ">=", "===", "!=="):
@@ -189,6 +204,9 @@ def pr(e, parent=0, right=False):
     k = e[0]
     if k == "lit":
         return e[3]
+    if k == "cast":
+        s = "%s as %s" % (pr(e[2], 16), e[1])
+        return "(" + s + ")"
     if k in ("neg", "pos", "bnot", "not"):
         inner = pr(e[2], 15)
         sym = {"neg": "-", "pos": "+", "bnot": "~", "not": "!"}[k]
